@@ -242,7 +242,6 @@ impl Snap {
 // the per-case log
 // ---------------------------------------------------------------------------
 
-#[derive(Default)]
 pub struct Log {
     /// (recording leaf id, what it was handed)
     pub deliveries: Mutex<Vec<(usize, Snap)>>,
@@ -250,9 +249,22 @@ pub struct Log {
     pub fseen: Mutex<Vec<(usize, Snap, bool)>>,
     /// (recording leaf id, timeout handed down)
     pub flushes: Mutex<Vec<(usize, Duration)>>,
+    /// `matches` calls per filter leaf index since the case began (never cleared): the state of
+    /// stateful leaves, shared by every instance built for that index
+    pub counters: Vec<AtomicU64>,
 }
 
 impl Log {
+    pub fn new(filter_leaves: usize) -> Log {
+        Log {
+            deliveries: Mutex::new(Vec::new()),
+            fseen: Mutex::new(Vec::new()),
+            flushes: Mutex::new(Vec::new()),
+            counters: (0..filter_leaves).map(|_| AtomicU64::new(0)).collect(),
+        }
+    }
+
+    /// Clears the per-path logs; the evaluation counters keep running.
     pub fn clear(&self) {
         self.deliveries.lock().unwrap().clear();
         self.fseen.lock().unwrap().clear();
@@ -280,10 +292,15 @@ pub enum FLeaf {
     Count(usize),
     /// the i-th enumerated key
     KeyAt(usize, String),
+    /// no property has this key (rejects *because of* an ambient property)
+    LacksKey(String),
+    /// stateful: accepts its first n evaluations, rejects afterwards (a budget / rate limiter)
+    Budget(u64),
 }
 
 impl FLeaf {
-    pub fn eval_model(&self, ev: &MEvent) -> bool {
+    /// `calls_before` = how often this leaf was evaluated before (the state of stateful leaves).
+    pub fn eval_model(&self, ev: &MEvent, calls_before: u64) -> bool {
         match self {
             FLeaf::Const(b) => *b,
             FLeaf::HasKey(k) => ev.props.iter().any(|(pk, _)| pk == k),
@@ -297,10 +314,12 @@ impl FLeaf {
             },
             FLeaf::Count(n) => ev.props.len() == *n,
             FLeaf::KeyAt(i, k) => ev.props.get(*i).map(|(pk, _)| pk == k).unwrap_or(false),
+            FLeaf::LacksKey(k) => !ev.props.iter().any(|(pk, _)| pk == k),
+            FLeaf::Budget(n) => calls_before < *n,
         }
     }
 
-    pub fn eval_real<P: Props>(&self, evt: &Event<P>) -> bool {
+    pub fn eval_real<P: Props>(&self, evt: &Event<P>, calls_before: u64) -> bool {
         match self {
             FLeaf::Const(b) => *b,
             FLeaf::HasKey(k) => evt.props().get(k.as_str()).is_some(),
@@ -333,6 +352,8 @@ impl FLeaf {
                 });
                 hit
             }
+            FLeaf::LacksKey(k) => evt.props().get(k.as_str()).is_none(),
+            FLeaf::Budget(n) => calls_before < *n,
         }
     }
 
@@ -346,6 +367,8 @@ impl FLeaf {
             FLeaf::TsEq(_) => "ts-eq",
             FLeaf::Count(_) => "count",
             FLeaf::KeyAt(..) => "key-at",
+            FLeaf::LacksKey(_) => "lacks-key",
+            FLeaf::Budget(_) => "budget",
         }
     }
 }
@@ -360,7 +383,8 @@ pub struct LeafF {
 
 impl LeafF {
     pub fn answer<P: Props>(&self, evt: &Event<P>) -> bool {
-        let a = self.leaf.eval_real(evt);
+        let before = self.log.counters[self.idx].fetch_add(1, Ordering::SeqCst);
+        let a = self.leaf.eval_real(evt, before);
         self.log.fseen.lock().unwrap().push((self.idx, Snap::of(evt), a));
         a
     }
